@@ -381,7 +381,73 @@ func (s *sys) Canon() string {
 	if s.tx != nil {
 		c += " TX{" + s.txm.canon() + "}"
 	}
-	return c
+	// digest of the real stores: paths are merged only if the implementation state agrees too
+	return c + " real:" + s.rawDigest(nil) + "|" + s.rawDigest(s.tx)
+}
+
+func (s *sys) rawDigest(tx gorp.Tx) string {
+	h := gorp.OverrideTx(s.db, tx)
+	interesting := func(id ontology.ID) bool {
+		if id.Type == ontology.ResourceTypeUser {
+			for _, sid := range subjects {
+				if sid == id {
+					return true
+				}
+			}
+			return false
+		}
+		if id.Type == ontology.ResourceTypeRole {
+			for _, k := range roleKeys {
+				if k.String() == id.Key {
+					return true
+				}
+			}
+			return false
+		}
+		if id.Type == ontology.ResourceTypePolicy {
+			for _, p := range policyDefs {
+				if p.Key.String() == id.Key {
+					return true
+				}
+			}
+		}
+		return false
+	}
+	var out []string
+	var rels []ontology.Relationship
+	_ = gorp.NewRetrieve[string, ontology.Relationship]().Entries(&rels).Exec(ctx, h)
+	for _, r := range rels {
+		if interesting(r.From) && interesting(r.To) {
+			out = append(out, r.GorpKey())
+		}
+	}
+	var ress []ontology.Resource
+	_ = gorp.NewRetrieve[string, ontology.Resource]().Entries(&ress).Exec(ctx, h)
+	for _, r := range ress {
+		if interesting(r.ID) {
+			out = append(out, r.ID.String())
+		}
+	}
+	var ps []policy.Policy
+	_ = s.svc.Policy.NewRetrieve().Entries(&ps).Exec(ctx, tx)
+	for _, p := range ps {
+		for _, d := range policyDefs {
+			if d.Key == p.Key {
+				out = append(out, "P:"+p.Name)
+			}
+		}
+	}
+	var rs []role.Role
+	_ = s.svc.Role.NewRetrieve().Entries(&rs).Exec(ctx, tx)
+	for _, r := range rs {
+		for _, k := range roleKeys {
+			if k == r.Key {
+				out = append(out, "R:"+r.Name)
+			}
+		}
+	}
+	sort.Strings(out)
+	return strings.Join(out, ",")
 }
 
 func (s *sys) checkView(tx gorp.Tx, m *model, name string) error {
